@@ -220,6 +220,42 @@ def Verdicts(results):
 
 # ---------------------------------------------------------------------------
 
+def MakeProbes(hand_lines):
+  """From accepted-looking recorded executions, one corrupted event each."""
+  probes = []
+  want = {'OnceEach': 8, 'BoundedReps': 8, 'Complete': 8, 'AfterInputs': 8}
+
+  def Add(line, ev, expect, what):
+    if want[expect] <= 0:
+      return
+    want[expect] -= 1
+    probes.append({'id': 'probe/%s/%s' % (expect, line['id']),
+                   'cfg': line['cfg'], 'ev': ev, 'end': 'ok', 'res': [],
+                   '_': {'expect': expect, 'what': what}})
+
+  for line in hand_lines[::max(1, len(hand_lines) // 400)]:
+    if line['end'] != 'ok' or not line['ev'] or \
+        c14cfg.LowerHalfExternal(line['cfg']):
+      continue
+    members = {a for g in line['cfg']['iters'] for a in g['members']}
+    ev = line['ev']
+    last = ev[-1]
+    if last[0] == 'run' and last[1] not in members:
+      Add(line, ev + [last], 'OnceEach', 'last call duplicated')
+    if last[0] == 'run' and last[1] in members:
+      Add(line, ev + [last], 'BoundedReps', 'extra run of an iteration member')
+    if len(ev) >= 2:
+      Add(line, ev[:-1], 'Complete', 'last call dropped')
+    for k, e in enumerate(ev):
+      if k > 0 and e[0] == 'run' and c14cfg.External(line['cfg'], e[1]):
+        Add(line, [e] + ev[:k] + ev[k + 1:], 'AfterInputs',
+            'call %d moved to the front' % (k + 1))
+        break
+    if not any(want.values()):
+      break
+  return probes
+
+
 def Signature(source, v):
   return {'source': source, 'clause': v.get('clause'), 'shape': v.get('shape')}
 
@@ -322,9 +358,13 @@ def Run(tier):
         {'id': ident, 'text': text, 'finals': ['Q'], 'subsets': [['Q']],
          'origin': 'compiled-undocumented'})
   info['impl_wall'] = clock()
+  # sensitivity probes: recorded executions with ONE event corrupted in a way
+  # that is illegal whatever the configuration; TLC must reject every one
+  probes = MakeProbes(hand_lines)
   comp_lines = prog_lines + runmany_lines + stub_lines + special
   for part in Shard(comp_lines, max(2, t['shards'] // 2)):
     jobs.Submit('trc', 'ConcertinaTrace', 'ConcertinaTrace.cfg', part)
+  jobs.Submit('trp', 'ConcertinaTrace', 'ConcertinaTrace.cfg', probes)
 
   jobs.Close()
   info['tlc_wall'] = clock()
@@ -378,9 +418,20 @@ def Run(tier):
   # ---- 4. verdicts on the real code
   vh, covh, s1, t1, e1 = Verdicts(jobs.Results('trh'))
   vc, covc, s2, t2, e2 = Verdicts(jobs.Results('trc'))
-  states += s1 + s2
-  trans += t1 + t2
-  machinery += e1 + e2
+  vp, _, s3, t3, e3 = Verdicts(jobs.Results('trp'))
+  states += s1 + s2 + s3
+  trans += t1 + t2 + t3
+  machinery += e1 + e2 + e3
+  probe_clauses = {}
+  for pl in probes:
+    v = vp.get(pl['id'])
+    if v is None or v['ok'] or v['clause'] != pl['_']['expect']:
+      machinery.append('corrupted trace %s (%s) not rejected as %s: %s' % (
+          pl['id'], pl['_']['what'], pl['_']['expect'], v))
+    else:
+      probe_clauses[v['clause']] = probe_clauses.get(v['clause'], 0) + 1
+  if len(probe_clauses) < 4:
+    machinery.append('sensitivity probes vacuous: %s' % probe_clauses)
   classifier = findings.Classifier(PROP)
   violations = []
   known = 0
@@ -526,6 +577,7 @@ def Run(tier):
       'compiled': comp,
       'accepted': accepted, 'rejected_by_clause': by_clause,
       'known_finding_rejections': known,
+      'corrupted_traces_rejected': probe_clauses,
       'model_drift': len(drift),
       'violations_found': len(violations),
       'machinery_problems': machinery[:10],
